@@ -123,13 +123,13 @@ def domain_for(cat, rng, n):
     return out
 
 
-def generate(seed, tier):
+def generate(seed, tier, rnd=0):
     rng = Rng(seed * 23 + 5)
     out = []
     cats = entries(lambda c: c["term"].has("collapse"))
     ln = {"quick": 5, "thorough": 7, "search": 6}[tier]
     for cat in cats:
-        if top(cat):
+        if top(cat) and rnd == 0:
             dom = domain_for(cat, rng, 3)
             for ops in itertools.product(range(3), repeat=ln):
                 out.append(seq_script(cat, rng.fork(), list(ops), dom))
